@@ -1,0 +1,9 @@
+//go:build verif
+
+// Contracts for the deductive verifier in /verif (comment-only; compiled only with -tags verif).
+package output
+
+// the file holds exactly the string handed over (ghost file system of /verif/spec/os.gspec) (C18, C09)
+//@ func WriteToFile
+//@   modifies diskContent { r | r == filePath }
+//@   ensures [C18,C09] exact: res == nil ==> diskContent(filePath) == strBytes(output)
